@@ -13,11 +13,14 @@ import json, copy as _copy
 from framework import coq_bs, coq_z, coq_list
 
 ID = 'C18'
-COQ_IMPORTS = ['C18_Model', 'C18_Heap']
+COQ_IMPORTS = ['C18_Model', 'C18_Heap', 'C18_Obj']
 GENERATORS = ['gen_attr_reserved']
 DISAGREEMENT_IS_TIE_ONLY = False
 MODELLED_FUNCS = {'sugar/core/meta.py': ['Attr.__init__', 'Attr.__getitem__', 'Attr.__setitem__', 'Attr.__delitem__', 'Attr.__getattr__',
-                                         'Attr.copy', 'Attr.update', 'Attr.__iter__', 'Attr.__len__']}
+                                         'Attr.copy', 'Attr.update', 'Attr.__iter__', 'Attr.__len__'],
+                  'sugar/core/seq.py': ['BioSeq.__add__', 'BioSeq.__iadd__', 'BioSeq.reverse', 'BioSeq.copy', 'BioSeq.fts', 'BioSeq.id',
+                                        'BioBasket.__init__', 'BioBasket.reverse', 'BioBasket.copy', 'BioBasket.sort', 'BioBasket.filter',
+                                        '_BioSeqStr.lower', '_BioSeqStr.upper', '_BioBasketStr.__getattr__']}
 NO_SHRINK_KEYS = ['mapkind', 'obj', 'how', 'mk', 'sub', 'data', 'arg', 'a', 'b', 'operand']
 
 # ----------------------------------------------------------------------------- literals
@@ -556,6 +559,521 @@ def coq_hop(op):
         return '(HIs %s %s %s %s)' % (coq_nat(op[1]), coq_path(op[2]), coq_nat(op[3]), coq_path(op[4]))
     raise RuntimeError(name)
 
+# ----------------------------------------------------------------------------- kind 'obj' (object-identity model, C18_Obj.v)
+# Programs over 4 variables holding REAL BioSeq / BioBasket / FeatureList / Meta objects, run through the public API, and the same
+# programs run by the capability-checked interpreter of coq/lib/C18_Obj.v.  Compared: the result of every step (for an object:
+# which variables it IS afterwards) and the whole object graph behind the variables with identities numbered in first-visit order
+# (so equal dumps = isomorphic graphs: deep snapshot + every is / id() fact at once).
+
+OBJ_KEYS = ['a', 'b', 'n', 'name', 'note', 'gene', '_x']
+
+
+class _OOD(Exception):
+    """the operation is outside the modelled fragment (the model answers OutOfDomain as well)"""
+
+
+def _is_obj(v):
+    return not (v is None or isinstance(v, (bool, int, str)))
+
+
+def o_slots(o):
+    """public named slots of an object, in the order used by the model"""
+    import collections.abc
+    from sugar import BioSeq, BioBasket
+    from sugar.core.fts import Feature, Location
+    if isinstance(o, BioSeq):
+        return [('data', o.data), ('meta', o.meta), ('type', o.type)]
+    if isinstance(o, BioBasket):
+        return [('meta', o.meta)]
+    if isinstance(o, Feature):
+        return [('locs', o.locs), ('meta', o.meta)]
+    if isinstance(o, Location):
+        return [('defect', int(o.defect)), ('meta', o.meta), ('start', o.start), ('stop', o.stop), ('strand', str(o.strand.value))]
+    if isinstance(o, collections.abc.Mapping):
+        return [(k, v) for k, v in o.items()]
+    return []
+
+
+def o_elems(o):
+    from sugar import BioBasket
+    from sugar.core.fts import FeatureList, LocationTuple
+    if isinstance(o, (BioBasket, FeatureList)):
+        return list(o.data)
+    if isinstance(o, (LocationTuple, list)):
+        return list(o)
+    return []
+
+
+def o_cls(o):
+    import collections.abc
+    from sugar import BioSeq, BioBasket
+    from sugar.core.fts import Feature, FeatureList, Location, LocationTuple
+    from sugar.core.meta import Attr, Meta
+    for c, n in ((BioSeq, 'Seq'), (BioBasket, 'Basket'), (FeatureList, 'Fts'), (Feature, 'Feat'), (LocationTuple, 'Locs'),
+                 (Location, 'Loc'), (Meta, 'Meta'), (Attr, 'Attr'), (collections.abc.Mapping, 'dict'), (list, 'list')):
+        if isinstance(o, c):
+            return n
+    return '?' + type(o).__name__
+
+
+def o_nav(o, q):
+    for e in q:
+        if not _is_obj(o):
+            raise _OOD('nav through a scalar')
+        if isinstance(e, str):
+            d = dict(o_slots(o))
+            if e not in d:
+                raise _OOD('no slot %r' % e)
+            o = d[e]
+        else:
+            if o_cls(o) not in ('Basket', 'Fts', 'Locs', 'list'):
+                raise _OOD('index into %s' % o_cls(o))
+            es = o_elems(o)
+            if not -len(es) <= e < len(es):
+                raise _OOD('index')
+            o = es[e]
+    return o
+
+
+def o_dump(regs):
+    order, seen = [], {}
+    stack = [r for r in regs if _is_obj(r)]
+    while stack:
+        o = stack.pop(0)
+        if id(o) in seen:
+            continue
+        seen[id(o)] = len(order)
+        order.append(o)
+        stack = [v for _, v in o_slots(o) if _is_obj(v)] + [v for v in o_elems(o) if _is_obj(v)] + stack
+    rv = lambda v: [seen[id(v)]] if _is_obj(v) else v
+    return [[rv(r) for r in regs],
+            [[o_cls(o), [[k, rv(v)] for k, v in o_slots(o)], [rv(v) for v in o_elems(o)]] for o in order]]
+
+
+def mk_feature(lit):
+    from sugar.core.fts import Feature, Location
+    locs = [Location(a, b, st, df, meta=fresh(m)) for a, b, st, df, m in lit['locs']]
+    return Feature(lit['type'], locs, meta=fresh(lit['meta']))
+
+
+def mk_seq(lit):
+    from sugar import BioSeq
+    s = BioSeq(lit['data'], meta=fresh(lit['meta']))
+    s.fts = [mk_feature(f) for f in lit['fts']]
+    return s
+
+
+def mk_obj(lit):
+    from sugar import BioBasket
+    from sugar.core.fts import FeatureList
+    from sugar.core.meta import Meta
+    k = lit['k']
+    if k == 'seq':
+        return mk_seq(lit)
+    if k == 'basket':
+        return BioBasket([mk_seq(x) for x in lit['seqs']], meta=fresh(lit['meta']))
+    if k == 'fts':
+        return FeatureList([mk_feature(f) for f in lit['fts']])
+    if k == 'meta':
+        return Meta(fresh(lit['meta']))
+    raise ValueError(k)
+
+
+def obj_do(regs, op):
+    """one step on the real objects, public API only; returns the result of the Python expression"""
+    import operator, collections.abc
+    from sugar import BioSeq, BioBasket
+    from sugar.core.fts import FeatureList
+    from sugar.core.meta import Attr
+    name = op[0]
+    if name == 'new':
+        regs[op[1]] = r = mk_obj(op[2])
+        return r
+    if name == 'clr':
+        regs[op[1]] = None
+        return None
+    if name == 'pure':
+        _, i, fn, j, q = op
+        x = o_nav(regs[j], q)
+        if not _is_obj(x):
+            raise _OOD('scalar receiver')
+        f = fn[0]
+        if f == 'get':
+            r = x
+        elif f == 'copy':
+            r = x.copy() if hasattr(x, 'copy') and not isinstance(x, (list, dict)) else _raise_ood()
+        elif f == 'slice':
+            if not isinstance(x, (BioSeq, BioBasket, FeatureList)):
+                raise _OOD('slice')
+            r = x[fn[1]:fn[2]]
+        elif f == 'addlit':
+            if not isinstance(x, BioSeq):
+                raise _OOD('add')
+            r = x + fn[1]
+        elif f == 'filterlen':
+            if not isinstance(x, BioBasket):
+                raise _OOD('filter')
+            r = x.filter(len_gt=fn[1])
+        else:
+            raise ValueError(f)
+        regs[i] = r
+        return r
+    if name == 'inpl':
+        _, d, fn, j, q = op
+        x = o_nav(regs[j], q)
+        f = fn[0]
+        if f in ('reverse', 'lower', 'upper'):
+            if not isinstance(x, (BioSeq, BioBasket)):
+                raise _OOD(f)
+            r = x.reverse() if f == 'reverse' else getattr(x.str, f)()
+        elif f == 'iaddlit':
+            if not isinstance(x, BioSeq):
+                raise _OOD(f)
+            r = operator.iadd(x, fn[1])
+        elif f == 'sortlen':
+            if not isinstance(x, BioBasket):
+                raise _OOD(f)
+            r = x.sort(len)
+        elif f == 'filterlen':
+            if not isinstance(x, BioBasket):
+                raise _OOD(f)
+            r = x.filter(inplace=True, len_gt=fn[1])
+        else:
+            raise ValueError(f)
+        if d is not None:
+            regs[d] = r
+        return r
+    if name == 'mut':
+        _, fn, j, q = op
+        x = o_nav(regs[j], q)
+        f = fn[0]
+        if f == 'setlit':
+            if not isinstance(x, collections.abc.MutableMapping):
+                raise _OOD(f)
+            x[fn[1]] = fresh(fn[2])
+        elif f == 'delkey':
+            if not isinstance(x, collections.abc.MutableMapping):
+                raise _OOD(f)
+            del x[fn[1]]
+        elif f == 'setid':
+            if not isinstance(x, BioSeq):
+                raise _OOD(f)
+            x.id = fn[1]
+        elif f == 'appendseq':
+            if not isinstance(x, BioBasket):
+                raise _OOD(f)
+            x.append(mk_seq(fn[1]))
+        elif f == 'appendfeat':
+            if not isinstance(x, FeatureList):
+                raise _OOD(f)
+            x.append(mk_feature(fn[1]))
+        elif f == 'appendlit':
+            if type(x) is not list:
+                raise _OOD(f)
+            x.append(fresh(fn[1]))
+        elif f == 'delidx':
+            if not (isinstance(x, (BioBasket, FeatureList)) or type(x) is list):
+                raise _OOD(f)
+            del x[fn[1]]
+        elif f == 'clear':
+            if not (isinstance(x, (BioBasket, FeatureList)) or type(x) is list):
+                raise _OOD(f)
+            x.clear()
+        else:
+            raise ValueError(f)
+        return None
+    if name == 'bin':
+        _, d, fn, j, q, j2, q2 = op
+        a, b = o_nav(regs[j], q), o_nav(regs[j2], q2)
+        if not (_is_obj(a) and _is_obj(b)):
+            raise _OOD('scalar operand')
+        f = fn[0]
+        if f == 'is':
+            r = a is b
+        elif f == 'extend':
+            if not ((isinstance(a, BioBasket) and isinstance(b, BioBasket)) or (isinstance(a, FeatureList) and isinstance(b, FeatureList))):
+                raise _OOD(f)
+            r = operator.iadd(a, b)
+        elif f == 'setfts':
+            if not (isinstance(a, BioSeq) and isinstance(b, FeatureList)):
+                raise _OOD(f)
+            a.fts = b
+            r = None
+        elif f == 'setref':
+            if not isinstance(a, Attr) or (isinstance(b, collections.abc.Mapping) and not isinstance(b, Attr)):
+                raise _OOD(f)
+            a[fn[1]] = b
+            r = None
+        else:
+            raise ValueError(f)
+        if d is not None:
+            regs[d] = r
+        return r
+    raise ValueError(name)
+
+
+def _raise_ood():
+    raise _OOD('copy')
+
+
+def impl_obj(case):
+    import framework as F, warnings
+    regs = [None] * NREGS
+    res = []
+    with warnings.catch_warnings():
+        warnings.simplefilter('ignore')
+        for op in case['ops']:
+            try:
+                r = obj_do(regs, op)
+                res.append(['obj'] + [r is x for x in regs] if _is_obj(r) else r)
+            except _OOD:
+                res.append({'e': 'OutOfDomain'})
+            except Exception as e:
+                res.append(F.canon_exc(e))
+        return [res, o_dump(regs)]
+
+
+# ---- generator: the program is grown while it runs on real objects, so that paths and receivers exist ----
+
+def r_odata(rng):
+    n = rng.choice([0, 1, 2, 3, 5, 8, 12])
+    alpha = 'ACGT' if rng.random() < 0.7 else 'ACGTacgtN-'
+    return ''.join(rng.choice(alpha) for _ in range(n))
+
+
+def r_ometa(rng, depth=2, with_id=None):
+    d = {}
+    if with_id is not None:
+        d['id'] = with_id
+    for _ in range(rng.randint(0, 3)):
+        k = rng.choice(OBJ_KEYS)
+        r = rng.random()
+        if depth > 0 and r < 0.35:
+            d[k] = r_ometa(rng, depth - 1)
+        elif depth > 0 and r < 0.5:
+            d[k] = [rng.choice([1, 'x', None])] + ([r_ometa(rng, 0)] if rng.random() < 0.5 else [])
+        else:
+            d[k] = rng.choice([1, 2, 'x', 'ACGT', None, True, -3])
+    return d
+
+
+def r_ofeat(rng, seqid):
+    strand = rng.choice('++-.?')
+    n = rng.choice([1, 1, 2, 3])
+    pos, locs = rng.randint(0, 3), []
+    for _ in range(n):
+        a = pos + rng.randint(0, 3)
+        b = a + rng.randint(1, 5)
+        pos = b + rng.randint(0, 2)
+        locs.append([a, b, strand, rng.choice([0, 0, 1, 2]), r_ometa(rng, 1) if rng.random() < 0.4 else {}])
+    if strand == '-':
+        locs.reverse()
+    m = r_ometa(rng, 1)
+    m['seqid'] = seqid
+    if rng.random() < 0.15:
+        m['type'] = 'old'
+    return {'type': rng.choice(['cds', 'gene', 'exon', None]), 'locs': locs, 'meta': m}
+
+
+def r_oseq(rng, sid=None):
+    sid = sid if sid is not None else rng.choice(['s1', 's2', 'q'])
+    meta = r_ometa(rng, 2, with_id=sid if rng.random() < 0.9 else None)
+    return {'k': 'seq', 'data': r_odata(rng), 'meta': meta, 'fts': [r_ofeat(rng, sid) for _ in range(rng.choice([0, 0, 1, 2]))]}
+
+
+def r_oobj(rng):
+    r = rng.random()
+    if r < 0.3:
+        return r_oseq(rng)
+    if r < 0.75:
+        return {'k': 'basket', 'seqs': [r_oseq(rng, 's%d' % i) for i in range(rng.choice([0, 1, 2, 2, 3, 4]))], 'meta': r_ometa(rng, 2)}
+    if r < 0.9:
+        return {'k': 'fts', 'fts': [r_ofeat(rng, 's1') for _ in range(rng.choice([0, 1, 2, 3]))]}
+    return {'k': 'meta', 'meta': r_ometa(rng, 3)}
+
+
+def o_targets(o, limit=80):
+    """(path, object) for the objects reachable from o (first path found), breadth first"""
+    out, seen, todo = [], set(), [([], o)]
+    while todo and len(out) < limit:
+        p, x = todo.pop(0)
+        if not _is_obj(x) or id(x) in seen:
+            continue
+        seen.add(id(x))
+        out.append((p, x))
+        for k, v in o_slots(x):
+            todo.append((p + [k], v))
+        es = o_elems(x)
+        for i, v in enumerate(es):
+            todo.append((p + [i if (i + len(p)) % 3 else i - len(es)], v))
+    return out
+
+
+OBJ_PURE = [['copy'], ['copy'], ['slice'], ['slice'], ['addlit'], ['filterlen'], ['get'], ['get']]
+OBJ_INPL = ['reverse', 'lower', 'upper', 'iaddlit', 'sortlen', 'filterlen']
+OBJ_MUT = ['setlit', 'setlit', 'delkey', 'setid', 'appendseq', 'appendfeat', 'appendlit', 'delidx', 'clear']
+OBJ_BIN = ['is', 'is', 'extend', 'setfts', 'setref']
+OBJ_WANT = {'slice': ('Seq', 'Basket', 'Fts'), 'addlit': ('Seq',), 'filterlen': ('Basket',), 'reverse': ('Seq', 'Basket'),
+            'lower': ('Seq', 'Basket'), 'upper': ('Seq', 'Basket'), 'iaddlit': ('Seq',), 'sortlen': ('Basket',),
+            'setlit': ('Meta', 'Attr', 'dict'), 'delkey': ('Meta', 'Attr', 'dict'), 'setid': ('Seq',), 'appendseq': ('Basket',),
+            'appendfeat': ('Fts',), 'appendlit': ('list',), 'delidx': ('Basket', 'Fts', 'list'), 'clear': ('Basket', 'Fts', 'list'),
+            'copy': ('Seq', 'Basket', 'Fts', 'Meta', 'Attr')}
+
+
+def _pick(rng, regs, want, live):
+    """a variable and a path to an object of one of the wanted classes (None: not found)"""
+    for _ in range(4):
+        j = rng.choice(live)
+        ts = [(p, x) for p, x in o_targets(regs[j]) if want is None or o_cls(x) in want]
+        if ts:
+            p, x = rng.choice(ts) if rng.random() < 0.8 else ts[0]
+            return j, p, x
+    return None
+
+
+def gen_obj_case(rng, nops):
+    import warnings
+    regs = [None] * NREGS
+    ops = []
+    with warnings.catch_warnings():
+        warnings.simplefilter('ignore')
+        try:
+            for _ in range(nops):
+                live = [i for i in range(NREGS) if _is_obj(regs[i])]
+                r = rng.random()
+                if not live or r < 0.1:
+                    op = ['new', rng.randrange(NREGS), r_oobj(rng)]
+                elif r < 0.13:
+                    op = ['clr', rng.randrange(NREGS)]
+                elif r < 0.4:
+                    fn = list(rng.choice(OBJ_PURE))
+                    got = _pick(rng, regs, OBJ_WANT.get(fn[0]), live)
+                    if got is None:
+                        continue
+                    j, p, x = got
+                    if fn[0] == 'slice':
+                        n = len(x)
+                        fn += [rng.choice([0, 0, 1, -1, 2, -n - 1]), rng.choice([n, n, n - 1, 1, -1, 0, n + 3])]
+                    elif fn[0] == 'addlit':
+                        fn.append(rng.choice(['ACG', '', 'T', 'acg']))
+                    elif fn[0] == 'filterlen':
+                        fn.append(rng.choice([0, 1, 2, 3, 5, 100, -1]))
+                    op = ['pure', rng.randrange(NREGS), fn, j, p]
+                elif r < 0.62:
+                    f = rng.choice(OBJ_INPL)
+                    got = _pick(rng, regs, OBJ_WANT[f], live)
+                    if got is None:
+                        continue
+                    j, p, x = got
+                    fn = [f]
+                    if f == 'iaddlit':
+                        fn.append(rng.choice(['ACG', '', 'TT']))
+                    elif f == 'filterlen':
+                        fn.append(rng.choice([0, 1, 2, 3, 5, 100, -1]))
+                    op = ['inpl', rng.choice([None, None] + list(range(NREGS))), fn, j, p]
+                elif r < 0.85:
+                    f = rng.choice(OBJ_MUT)
+                    got = _pick(rng, regs, OBJ_WANT[f], live)
+                    if got is None:
+                        continue
+                    j, p, x = got
+                    fn = [f]
+                    if f == 'setlit':
+                        fn += [rng.choice(OBJ_KEYS), rng.choice([1, 'v', None, r_ometa(rng, 1), [1, {'a': {}}]])]
+                    elif f == 'delkey':
+                        ks = [k for k, _ in o_slots(x) if k not in ('fts',)]
+                        fn.append(rng.choice(ks) if ks and rng.random() < 0.85 else rng.choice(OBJ_KEYS))
+                    elif f == 'setid':
+                        fn.append(rng.choice(['z', 's1', '']))
+                    elif f == 'appendseq':
+                        fn.append(r_oseq(rng))
+                    elif f == 'appendfeat':
+                        fn.append(r_ofeat(rng, 's1'))
+                    elif f == 'appendlit':
+                        fn.append(rng.choice([1, 'v', None, {'a': 1}, [2]]))
+                    elif f == 'delidx':
+                        n = len(o_elems(x))
+                        fn.append(rng.choice([0, -1, n - 1, n, 1]))
+                    op = ['mut', fn, j, p]
+                else:
+                    f = rng.choice(OBJ_BIN)
+                    wa, wb = {'is': (None, None), 'extend': (('Basket', 'Fts'), None), 'setfts': (('Seq',), ('Fts',)),
+                              'setref': (('Meta', 'Attr'), ('Attr', 'list', 'Fts', 'Meta'))}[f]
+                    ga = _pick(rng, regs, wa, live)
+                    if ga is None:
+                        continue
+                    if f == 'extend':
+                        wb = (o_cls(ga[2]),)
+                    gb = _pick(rng, regs, wb, live)
+                    if gb is None:
+                        continue
+                    if f == 'is' and rng.random() < 0.4:
+                        gb = ga
+                    fn = [f] + ([rng.choice(OBJ_KEYS)] if f == 'setref' else [])
+                    op = ['bin', rng.choice([None] + list(range(NREGS))) if f in ('extend',) else None, fn, ga[0], ga[1], gb[0], gb[1]]
+                ops.append(op)
+                try:
+                    obj_do(regs, op)
+                except Exception:
+                    pass
+        except Exception:
+            pass              # a broken library must not break the generator: the program so far is the case
+    return {'kind': 'obj', 'ops': ops}
+
+
+def coq_featlit(f):
+    from framework import coq_opt
+    locs = coq_list(['(LocLit %s %s %s %s %s)' % (coq_z(a), coq_z(b), coq_bs(st), coq_z(df), coq_tree(m)) for a, b, st, df, m in f['locs']])
+    return '(FeatLit %s %s %s)' % (coq_opt(f['type'], coq_bs), locs, coq_tree(f['meta']))
+
+
+def coq_seqlit(s):
+    return '(SeqLit %s %s %s)' % (coq_bs(s['data']), coq_tree(s['meta']), coq_list([coq_featlit(f) for f in s['fts']]))
+
+
+def coq_objlit(o):
+    k = o['k']
+    if k == 'seq':
+        return '(LSeq %s)' % coq_seqlit(o)
+    if k == 'basket':
+        return '(LBasket %s %s)' % (coq_list([coq_seqlit(x) for x in o['seqs']]), coq_tree(o['meta']))
+    if k == 'fts':
+        return '(LFts %s)' % coq_list([coq_featlit(f) for f in o['fts']])
+    return '(LMeta %s)' % coq_tree(o['meta'])
+
+
+def coq_oop(op):
+    from framework import coq_nat, coq_opt
+    name = op[0]
+    if name == 'new':
+        return '(ONew %s %s)' % (coq_nat(op[1]), coq_objlit(op[2]))
+    if name == 'clr':
+        return '(OClr %s)' % coq_nat(op[1])
+    if name == 'pure':
+        _, i, fn, j, q = op
+        f = {'copy': 'PCopy', 'get': 'PGet'}.get(fn[0]) or {
+            'slice': lambda: '(PSlice %s %s)' % (coq_z(fn[1]), coq_z(fn[2])), 'addlit': lambda: '(PAddLit %s)' % coq_bs(fn[1]),
+            'filterlen': lambda: '(PFilterLen %s)' % coq_z(fn[1])}[fn[0]]()
+        return '(OPure %s %s %s %s)' % (coq_nat(i), f, coq_nat(j), coq_path(q))
+    if name == 'inpl':
+        _, d, fn, j, q = op
+        f = {'reverse': 'FReverse', 'lower': 'FLower', 'upper': 'FUpper', 'sortlen': 'FSortLen'}.get(fn[0]) or {
+            'iaddlit': lambda: '(FIaddLit %s)' % coq_bs(fn[1]), 'filterlen': lambda: '(FFilterLen %s)' % coq_z(fn[1])}[fn[0]]()
+        return '(OInpl %s %s %s %s)' % (coq_opt(d, coq_nat), f, coq_nat(j), coq_path(q))
+    if name == 'mut':
+        _, fn, j, q = op
+        f = {'setlit': lambda: '(MSetLit %s %s)' % (coq_bs(fn[1]), coq_tree(fn[2])), 'delkey': lambda: '(MDelKey %s)' % coq_bs(fn[1]),
+             'setid': lambda: '(MSetId %s)' % coq_bs(fn[1]), 'appendseq': lambda: '(MAppendSeq %s)' % coq_seqlit(fn[1]),
+             'appendfeat': lambda: '(MAppendFeat %s)' % coq_featlit(fn[1]), 'appendlit': lambda: '(MAppendLit %s)' % coq_tree(fn[1]),
+             'delidx': lambda: '(MDelIdx %s)' % coq_z(fn[1]), 'clear': lambda: 'MClear'}[fn[0]]()
+        return '(OMut %s %s %s)' % (f, coq_nat(j), coq_path(q))
+    if name == 'bin':
+        _, d, fn, j, q, j2, q2 = op
+        f = {'is': 'BIs', 'extend': 'BExtend', 'setfts': 'BSetFts'}.get(fn[0]) or '(BSetRef %s)' % coq_bs(fn[1])
+        return '(OBin %s %s %s %s %s %s)' % (coq_opt(d, coq_nat), f, coq_nat(j), coq_path(q), coq_nat(j2), coq_path(q2))
+    raise RuntimeError(name)
+
+
 # ----------------------------------------------------------------------------- framework API
 
 def gen_cases(rng, tier):
@@ -566,6 +1084,8 @@ def gen_cases(rng, tier):
         cases.append(gen_attr_case(rng, rng.randint(1, 12), p_res))
     for i in range(12000 if tier == 'thorough' else 500):
         cases.append(gen_heap_case(rng, rng.randint(2, 12)))
+    for i in range(12000 if tier == 'thorough' else 500):
+        cases.append(gen_obj_case(rng, rng.randint(2, 12)))
     return cases
 
 
@@ -574,6 +1094,8 @@ def impl(case):
         return impl_attr(case)
     if case['kind'] == 'heap':
         return impl_heap(case)
+    if case['kind'] == 'obj':
+        return impl_obj(case)
     if case['kind'] == 'history' and case.get('locmeta_nested'):
         return locmeta_nested_check()
     if case['kind'] == 'history':
@@ -604,6 +1126,8 @@ def model_term(case):
         return 'out (run_C18 %s %s)' % (coq_tree(case['d']), coq_list([coq_op(o) for o in case['ops']]))
     if case['kind'] == 'heap':
         return 'out (run_C18_heap %s)' % coq_list([coq_hop(o) for o in case['ops']])
+    if case['kind'] == 'obj':
+        return 'out (run_C18_obj %s)' % coq_list([coq_oop(o) for o in case['ops']])
     # relational cases (replays of extra_checks): no model; the expected value is "no violation"
     return 'out (VL [VB true; %s])' % ('VL []' if case['kind'] == 'rewrap' else 'VNone')
 
@@ -625,7 +1149,7 @@ def spec(case, got):
         if not eqplain:
             return 'Meta object does not compare equal to the equivalent dict'
         return None
-    if case['kind'] == 'heap':
+    if case['kind'] in ('heap', 'obj'):
         return None
     # relational kinds: the implementation-side value IS the verdict (None / [] = no violation)
     if got:
@@ -641,6 +1165,9 @@ def nontrivial(case, got):
     if case['kind'] == 'heap':
         names = sorted(set(o[0] for o in case['ops']))
         return ['heap', names] if {'copy', 'wrap', 'setref', 'appref'} & set(names) else None
+    if case['kind'] == 'obj':
+        names = sorted(set(o[0] + ':' + (o[2][0] if o[0] in ('pure', 'inpl', 'bin') else o[1][0] if o[0] == 'mut' else '') for o in case['ops']))
+        return ['obj', names] if len(names) > 2 else None
     return None
 
 
@@ -650,7 +1177,9 @@ def histkey(case, got):
         ks += ['op=' + o[0] for o in case['ops']] + ['mapkind=' + str(case.get('mapkind', 'dict'))]
     if case['kind'] == 'heap':
         ks += ['hop=' + o[0] for o in case['ops']]
-    if case['kind'] in ('attr', 'heap'):
+    if case['kind'] == 'obj':
+        ks += ['oop=' + o[0] + ':' + (o[2][0] if o[0] in ('pure', 'inpl', 'bin') else o[1][0] if o[0] == 'mut' else '') for o in case['ops']]
+    if case['kind'] in ('attr', 'heap', 'obj'):
         if isinstance(got, list):
             ks += ['err=' + r['e'] for r in got[0] if isinstance(r, dict) and 'e' in r]
     return ks
@@ -674,7 +1203,10 @@ RULE = ('kind attr: histories of 1-12 mapping operations (item/attribute set, ge
         '"is" tests) compared with the heap model on the snapshots of all variables; extra: 800 (quick) / 30000 (thorough) random '
         'histories of 1-12 public operations (227 operations on BioSeq, BioBasket, FeatureList, Feature, Location, Meta) on real objects '
         'and their copies with deep structural snapshots, id()-reachability and write-footprint checks, plus re-wrap checks of every '
-        'constructor / non-in-place operation; non-trivial = history that reaches a nested object or mixes operation kinds (attr), or '
+        'constructor / non-in-place operation; kind obj: programs of 2-12 steps over 4 variables holding real BioSeq / BioBasket / '
+        'FeatureList / Meta objects (26 public operations at random reachable receivers, grown while running so that receivers exist; '
+        'empty baskets / sequences / feature lists included) compared with the object-identity model on every step result and on the '
+        'canonical object-graph dump; non-trivial = history that reaches a nested object or mixes operation kinds (attr), or '
         'contains copy / re-wrap / reference assignment (heap)')
 TRUSTED = ['copy.deepcopy, object identity, reference semantics and collections.abc.MutableMapping mixins of CPython (deepcopy is '
            'modelled as read-and-rebuild, exact on tree-shaped objects; shared/cyclic objects only by the real-object histories)',
@@ -686,33 +1218,52 @@ TRUSTED = ['copy.deepcopy, object identity, reference semantics and collections.
 ASSUMPTIONS = ['metadata keys are Latin-1 str outside the reserved set R = dir(Meta) + __dunder__ names (open finding F20)',
                'literal values are None/bool/int/str/list/dict (no floats, tuples, sets) in the modelled kinds',
                'heap kind: objects passed to copy() have no internal sharing and no cycles (decided by the model: tree_shaped)']
-LEVEL_TEXT = ('Machine-checked Coq theorems (35, all closed under the global context) over two hand-written models of sugar.core.meta '
+LEVEL_TEXT = ('Machine-checked Coq theorems (45, all closed under the global context) over three hand-written models '
               '(every statement of the modelled Attr methods is executed by the quick tier). '
-              '(a) Value level: get/set/delete laws incl. key order; attribute access = key access and get-after-set at ANY path; '
-              'recursive Mapping->Attr conversion (to_dict(Attr(d)) = d); an invariant (unique keys, an Attr never directly holds a '
+              '(a) Value level (C18_Model.v): get/set/delete laws incl. key order; attribute access = key access and get-after-set at ANY path; '
+              'recursive Mapping->Attr conversion (to_dict(Attr(d)) = d, conversion idempotent); an invariant (unique keys, an Attr never directly holds a '
               'plain dict) that Meta(d) establishes and EVERY modelled operation at every path preserves, hence after any history '
               'x == dict view == x; reading operations return the object unchanged; Mapping == is equality of finite maps (same key set, equal values; a missing key is not a None value). '
-              '(b) Heap level: frame theorem; y = x.copy() has an equal snapshot on disjoint cells; the no-dangling-reference and '
+              '(b) Heap level (C18_Heap.v): frame theorem; y = x.copy() has an equal snapshot on disjoint cells; the no-dangling-reference and '
               'two-colour separation invariants are composed through EVERY modelled operation (Meta(d), copy, Meta(x) re-wrap, literal '
               'and reference assignment with conversion, del, list append, is), giving copy isolation over ARBITRARY histories of '
               'modelled operations from the empty heap, both directions, with no hypothesis left to the reader; copy/re-wrap/is are '
               'not in-place. (c) Refinement: for objects without internal sharing the heap operation followed by a deep read equals '
               'the value-level operation on the deep read (setitem of a literal, delitem, list append, at key paths). '
-              'Both models are tied to the real classes by differential testing on every run; the BioSeq/BioBasket/FeatureList part of '
-              'the property is decided by randomized operation histories and deterministic matrices on real objects (testing, not proof).')
-LEVEL_NOTE = ('Proved for the models only; the models are tied to /repo by testing (0 disagreements over 24 000 cases in the thorough tier). '
+              '(d) Object-identity level (C18_Obj.v): BioSeq / BioBasket / FeatureList / Feature / LocationTuple / Location / Meta / Attr / list '
+              'as a heap of objects with identities; copy() = deepcopy is a GRAPH copy (internal sharing and cycles preserved); slicing / + / '
+              're-wrapping share meta.fts and nested metadata by design; every modelled public operation (26: constructors, copy, slicing of '
+              'sequences / baskets / feature lists, +, filter, reverse, str.lower/upper, +=, sort(len), filter(inplace), item set / del on '
+              'metadata with conversion, id setter, append of sequences / features / literals, del [i], clear, container +=, fts setter, '
+              'assignment of an existing object, is) is a PROGRAM for a capability-checked interpreter, and the theorems are proved once for '
+              'the interpreter: obj_interp_separation (any program keeps the two-colour invariant and touches no cell of the other colour), '
+              'obj_copy_isolation (after y = copy(x) at ANY reachable state, every finite sequence of modelled operations on y and scratch '
+              'variables leaves every observation -- canonical dump of the object graph incl. identities -- through every other variable '
+              'unchanged, and vice versa; by induction over operation sequences), obj_inplace_returns_receiver (receivers of ANY size, the '
+              'empty basket included), obj_pure_only_allocates / obj_pure_not_inplace (not-in-place operations leave every existing object '
+              'and every operand as it was), obj_reachable_ok (no dangling reference in any reachable state), obj_graph_copy_fresh. '
+              'All models are tied to the real classes by differential testing on every run (object model: same programs on real objects '
+              'through the public API, compared on every step result incl. "is" with every variable and on the whole object graph with '
+              'identities numbered in first-visit order); the remaining BioSeq / Feature / Location operations are decided by randomized operation '
+              'histories and deterministic matrices on real objects (testing, not proof).')
+LEVEL_NOTE = ('Proved for the models only; the models are tied to /repo by testing (0 disagreements over 36 000 cases in the thorough tier). '
               'All 24 statements of the 9 modelled Attr methods (meta.py) are executed in the quick tier; none is unreachable. '
-              'Trusted: Coq kernel/vm_compute, copy.deepcopy and CPython reference semantics (deepcopy modelled as read-and-rebuild, exact '
-              'for tree-shaped objects: a copy() of an internally shared object is outside the modelled domain, decided by tree_shaped), '
-              'MutableMapping mixins, the harness. TESTED ONLY (not modelled in Coq): copy() isolation and the in-place / not-in-place '
-              'contracts of BioSeq, BioBasket, FeatureList, Feature, Location -- 800/30000 random histories of 227 public operations (secondary operands that are sugar objects are snapshotted too) per '
+              'Trusted: Coq kernel/vm_compute, copy.deepcopy and CPython reference semantics (heap model: deepcopy as read-and-rebuild, exact '
+              'for tree-shaped objects, decided by tree_shaped; object model: deepcopy as graph copy over the reachable set computed by a '
+              'fuelled DFS, failing closed -- OutOfDomain -- if the set were not closed), MutableMapping mixins, collections.UserList, the harness. '
+              'Object model: residues are modelled for reverse / lower / upper / + / slicing only (no complement / translate), feature '
+              'coordinates are carried but never transformed, LocationTuple and Location are immutable in the model (Location.start/stop '
+              'edits re-sort on deepcopy: tested only), set operators (&, |, -, ^) compare by deep equality and are tested only, '
+              'the isolation theorem does not prove that the copy is ISOMORPHIC to the original (that is compared on every run). '
+              'TESTED ONLY (not modelled in Coq): rc / complement / translate / match / find_orfs / set operators / Feature and Location '
+              'edits -- 800/30000 random histories of 227 public operations (secondary operands that are sugar objects are snapshotted too) per '
               'run (subjects also read from GFF -- feature and location meta._gff -- and from SJSON), 120/2000 exhaustive nested-edit sweeps (every reachable object of one side edited, both directions, depth up to 11), a 5160-case matrix of match/matchall/find_orfs/copy-chains over all reading-frame selections, 33 re-wrap checks, an 81-case matrix of mapping pairs differing only in None-valued keys through 14 equality forms, a 210-case matrix of in-place operators with tuple/generator/dict-view/iterator operands (identity, alias, meta, content), a '
               '351-case matrix of mapping kinds x entry paths. Not proved: refinement for reference assignment / paths through list '
               'indices; the heap analogue of the "Attr never holds a plain dict" invariant. '
               'Domain excludes reserved keys R = dir(Meta) + __dunder__ names: open finding F20 (keys such as items/update/copy shadow '
               'the mapping methods; __deepcopy__/__reduce_ex__/__getstate__ break copy(); __class__/__dict__ break attribute = key '
               'access), reported as KNOWN-FINDING while its witness fails. No axioms.')
-TECHNIQUE = 'Coq proof over value-level and heap models + differential testing + randomized aliasing histories on real objects'
+TECHNIQUE = 'Coq proof over value-level, heap and object-identity models (capability-checked interpreter) + differential testing + randomized aliasing histories on real objects'
 
 
 # ============================================================================= real-object histories (extra_checks)
